@@ -690,6 +690,8 @@ class Interp:
         if k == "t":
             v = n[1]
             return v.strip() if isinstance(v, str) else v
+        if k == "rx":
+            return n[1]
         if k == "h":
             return self._header(n[1])
         if k == "hi":
@@ -1030,9 +1032,12 @@ class Interp:
             a, b = self._str(args[0]), self._str(args[1])
             return S(a).startswith(S(b))
         if name in ("regex", "exact"):
-            rx = self.val(args[0])
-            v = self._str(args[1])
+            ri = 0 if args[0][0] == "rx" else 1
+            rx = self.val(args[ri])
+            v = self._str(args[1 - ri])
             m = re.search(rx, v)
+            if m is not None and m.group(0) == "":
+                raise Undefined("regex matching the empty string")
             if name == "regex":
                 return m is not None
             return m is not None and m.group(0) == v
